@@ -87,6 +87,25 @@ def _body_text(fn: ast.FunctionDef) -> str:
     return "\n".join(ast.unparse(s) for s in strip_doc(fn.body))
 
 
+def _body_text_norm(fn: ast.FunctionDef) -> str:
+    """like `_body_text`, after folding `x = E` immediately followed by `return x` into `return E` (repeatedly):
+    a result bound to a local just to be returned is the same as returning it"""
+    body = list(strip_doc(fn.body))
+    changed = True
+    while changed and len(body) >= 2:
+        changed = False
+        a, b = body[-2], body[-1]
+        tgt = None
+        if isinstance(a, ast.Assign) and len(a.targets) == 1 and isinstance(a.targets[0], ast.Name):
+            tgt, val = a.targets[0].id, a.value
+        elif isinstance(a, ast.AnnAssign) and isinstance(a.target, ast.Name) and a.value is not None:
+            tgt, val = a.target.id, a.value
+        if tgt and isinstance(b, ast.Return) and isinstance(b.value, ast.Name) and b.value.id == tgt:
+            body = body[:-2] + [ast.Return(value=val)]
+            changed = True
+    return "\n".join(ast.unparse(ast.fix_missing_locations(st)) for st in body)
+
+
 def _ladder(fn: ast.FunctionDef) -> list:
     """[(test, body)] of the first if/elif/else chain of a `__new__`, plus trailing statements"""
     out = []
@@ -561,7 +580,7 @@ def gen_conv() -> str:
     for cname in ("IntType", "UintType", "DoubleType", "BoolType", "TimestampType", "DurationType"):
         C = find_class(m, cname)
         try:
-            body = _body_text(find_func(C.body, "__str__"))
+            body = _body_text_norm(find_func(C.body, "__str__"))
         except TranslationError:
             body = "<absent>"
         out.append(f"def {cname[0].lower() + cname[1:]}Str : String := " + lean_str(body))
